@@ -121,11 +121,16 @@ def gen_model_header(dm: DataModel, backend, code_texts, strings):
            'const T& operator*() const { if (isnull) vrt::fault("nullderef", "* on null Ref"); return *p; } '
            'bool isNonnull() const { return !isnull; } bool isNull() const { return isnull; } bool isAvailable() const { return !isnull; } }; }']
     # enums
+    class_enums = {}
     for full, (ns, values) in dm.enums.items():
         parts = ns.split(".")
         name = full.split(".")[-1]
-        opens = " ".join(f"namespace {p} {{" for p in parts)
         vals = ", ".join(f"{v} = {strings.get('enum:' + ns + '.' + v, 0)}" for v in values)
+        if "::".join(parts) in classes:
+            # the enum's "namespace" is a class of the data model (xAOD::Jet::Color): it is declared inside that class
+            class_enums.setdefault("::".join(parts), []).append(f"  enum {name} {{ {vals} }};")
+            continue
+        opens = " ".join(f"namespace {p} {{" for p in parts)
         out.append(f"{opens} enum {name} {{ {vals} }}; {'}' * len(parts)}")
     # forward declarations
     def open_ns(full):
@@ -140,7 +145,7 @@ def gen_model_header(dm: DataModel, backend, code_texts, strings):
     # class definitions (declarations of methods only)
     for full, c in classes.items():
         o, n, cl = open_ns(full)
-        lines = [f"{o} struct {n} {{ long oid;"]
+        lines = [f"{o} struct {n} {{ long oid;"] + class_enums.get(full, [])
         names = {m for m in c.methods if m.split("<")[0] in called} | called
         for mn in sorted(names):
             base = mn.split("<")[0]
